@@ -17,7 +17,6 @@ mod ser_ws;
 mod suite_ser;
 mod suite_fws;
 mod scope_oracle;
-mod suite_entity;
 mod suite_scope;
 mod suite_tree;
 mod tree;
